@@ -945,6 +945,41 @@ func c02Directed(rng *RNG) []c02Fault {
 		o[4] = c02StreamObj(d, hex2)
 		add("filters:"+name, c02RawPDF(o, ""))
 	}
+	// embedded TrueType programs whose table directory names tables outside the program, with offsets and
+	// lengths whose sum wraps around 32 bits, and with more tables than bytes
+	{
+		be32 := func(v uint32) []byte { return []byte{byte(v >> 24), byte(v >> 16), byte(v >> 8), byte(v)} }
+		mkFont := func(numTables uint16, recs [][3]interface{}) []byte {
+			b := []byte{0, 1, 0, 0, byte(numTables >> 8), byte(numTables), 0, 16, 0, 0, 0, 16}
+			for _, rc := range recs {
+				b = append(b, []byte(rc[0].(string))...)
+				b = append(b, 0, 0, 0, 0)
+				b = append(b, be32(rc[1].(uint32))...)
+				b = append(b, be32(rc[2].(uint32))...)
+			}
+			return append(b, make([]byte, 64)...)
+		}
+		tags := []string{"cmap", "head", "hhea", "hmtx", "maxp", "loca", "glyf", "name", "post", "OS/2"}
+		k := 0
+		for _, off := range []uint32{0xFFFFFFF0, 0xFFFFFFFF, 0x80000000, 0x7FFFFFFF, 0x10, 0} {
+			for _, ln := range []uint32{0x20, 0xFFFFFFFF, 0x7FFFFFFF, 0x80000000, 0} {
+				var recs [][3]interface{}
+				for _, tg := range tags {
+					recs = append(recs, [3]interface{}{tg, off, ln})
+				}
+				prog := mkFont(uint16(len(recs)), recs)
+				o := base()
+				o[3] = "<< /Type /Font /Subtype /TrueType /BaseFont /ABCDEF+T /FirstChar 32 /LastChar 32 /Widths [250] /FontDescriptor 6 0 R >>"
+				o = append(o, "<< /Type /FontDescriptor /FontName /ABCDEF+T /Flags 4 /FontFile2 7 0 R >>", c02StreamObj("/Length1 "+fmt.Sprint(len(prog)), prog))
+				add(fmt.Sprintf("truetype-directory-%d", k), c02RawPDF(o, ""))
+				k++
+			}
+		}
+		o := base()
+		o[3] = "<< /Type /Font /Subtype /TrueType /BaseFont /ABCDEF+T /FontDescriptor 6 0 R >>"
+		o = append(o, "<< /Type /FontDescriptor /FontName /ABCDEF+T /Flags 4 /FontFile2 7 0 R >>", c02StreamObj("", mkFont(0xFFFF, [][3]interface{}{{"cmap", uint32(12), uint32(4)}})))
+		add("truetype-directory-count", c02RawPDF(o, ""))
+	}
 	// ToUnicode programs cut off at every third byte, and with unbalanced delimiters in every section
 	{
 		cm := "/CIDInit /ProcSet findresource begin 12 dict begin begincmap 1 begincodespacerange <00> <FF> endcodespacerange 2 beginbfchar <68> <0048> <65> <0045> endbfchar 2 beginbfrange <6C> <6D> <004C> <6F> <70> [<004F> <0050>] endbfrange endcmap end end"
